@@ -94,6 +94,13 @@ def check_lines_premises(prog: Program, res: Result) -> None:
     kw = {k.arg: astq.xnorm(fc.node, k.value) for k in cc[0].keywords} if len(cc) == 1 else {}
     ok = kw.get("pafs_stride") == "config.pafs.output_stride" and kw.get("part_names") == "config.confmaps.part_names" and kw.get("edges") == "config.pafs.edges"
     res.ob(R, ok, fc.qualname, "pafs_stride/edges from the PAF head config, part_names from the confmap head config", f"PAFScorer.from_config binds {kw}", fc.where)
+    # ... and every scoring parameter of from_config reaches the constructor field of the same name unchanged (a value
+    # filtered by truthiness on the way - `if value` - loses the legitimate settings 0 / 0.0)
+    fields = {st_.target.id for st_ in prog.cls(f"{PG}:PAFScorer").node.body if isinstance(st_, ast.AnnAssign) and isinstance(st_.target, ast.Name)}
+    for prm in [p_ for p_ in fc.params if p_ in fields]:
+        res.ob(R, kw.get(prm) == prm and not astq.assignments_to(fc.node, prm), fc.qualname, f"from_config({prm}) -> PAFScorer({prm})",
+               f"PAFScorer.from_config hands `{kw.get(prm, 'nothing / a filtered **kwargs')}` to the constructor field `{prm}` instead of its own argument `{prm}`: "
+               "a configured value (e.g. min_line_scores=0.0) can be replaced by the class default", fc.where)
     res.floor(R, 10)
 
 
@@ -207,6 +214,8 @@ def check_candidates(prog: Program, res: Result, R: str = "C03-cand") -> None:
 
 
 def check(prog: Program, res: Result) -> None:
+    from . import _state
+    _state.check_no_cross_call_state(prog, res, "C03-state", ["sleap_nn.inference.paf_grouping:PAFScorer.predict", "sleap_nn.inference.paf_grouping:PAFScorer.score_paf_lines", "sleap_nn.inference.paf_grouping:PAFScorer.match_candidates", "sleap_nn.inference.paf_grouping:PAFScorer.group_instances"], floor=4)
     check_candidates(prog, res)
     c02.check_entries(prog, res, ("bottomup",), rule_out="C03-out", rule_own="C03-own", prefix="C03")
     check_lines_premises(prog, res)
